@@ -437,7 +437,7 @@ impl<'tcx> Cx<'tcx> {
         adt.variant(idx).name.to_string()
     }
 
-    fn rvalue_json(&mut self, rv: &Rvalue<'tcx>, env: TypingEnv<'tcx>) -> J {
+    fn rvalue_json(&mut self, rv: &Rvalue<'tcx>, env: TypingEnv<'tcx>, body: &Body<'tcx>) -> J {
         let mut o = J::obj();
         match rv {
             Rvalue::Use(op, _) => {
@@ -491,6 +491,19 @@ impl<'tcx> Cx<'tcx> {
             Rvalue::Discriminant(p) => {
                 o.put("rv", jstr("discr"));
                 o.put("place", self.place_json(p));
+                let pty = p.ty(&body.local_decls, self.tcx).ty;
+                if let ty::Adt(adt, _) = *pty.kind() {
+                    if adt.is_enum() {
+                        o.put("enum", jstr(self.path(adt.did())));
+                        o.put("enum_krate", jstr(self.krate(adt.did())));
+                        let mut vs = J::obj();
+                        for (i, v) in adt.variants().iter_enumerated() {
+                            let d = adt.discriminant_for_variant(self.tcx, i).val;
+                            vs.put(format!("{}", d), jstr(v.name.to_string()));
+                        }
+                        o.put("variants", vs);
+                    }
+                }
             }
             Rvalue::Aggregate(kind, ops) => {
                 o.put("rv", jstr("agg"));
@@ -669,7 +682,7 @@ impl<'tcx> Cx<'tcx> {
                 match &st.kind {
                     StatementKind::Assign(bx) => {
                         let (p, rv) = &**bx;
-                        let mut s = self.rvalue_json(rv, env);
+                        let mut s = self.rvalue_json(rv, env, body);
                         s.put("dst", self.place_json(p));
                         s.put("loc", self.loc(st.source_info.span));
                         stmts.push(s);
